@@ -125,6 +125,12 @@ def cmd_confirm(args):
 
 
 def cmd_run(args):
+    # every scratch worktree path compiles hc anew into Go's build cache (~0.4 GB per run): keep the disk from filling up
+    try:
+        if shutil.disk_usage("/").free < 40 * 2**30:
+            subprocess.run(["go", "clean", "-cache"], stdout=subprocess.DEVNULL, stderr=subprocess.DEVNULL)
+    except Exception:
+        pass
     d = os.path.abspath(args[0])
     tier, checks = "quick", None
     a = args[1:]
